@@ -19,12 +19,13 @@ LEVEL_TEXT = ('all 819 token patterns + 8 full-path patterns are run by the real
 LEVEL_NOTE = ('trusted: R4 (cross-checked against fnmatchcase on 32k pairs in the selftest); where wildcard-crossing-"/" makes shell and '
               'fnmatch readings differ the entry is don\'t-care')
 RULE = ('patterns: token strings of length 1-3 over {a,A,b,.,*,?,[ab],[!a],[} plus {/home/u/w/a, /home/*/a, /*, /mnt/v1/*, /home/u/w/?, '
-        '/home/u/w2/[ab], /home/u/w/a?, ""} x name subsets (<=2 quick, <=3 thorough) of {a,A,ab,b,a*,[ab],a.b}, each name stored from '
-        '/home/u/w, /home/u/w2 and /mnt/v1/p; non-trivial = at least one entry matched and at least one did not; distinct = (pattern shape, outcome)')
+        '/home/u/w2/[ab], /home/u/w/a?, ""} x name subsets (<=2 quick, <=3 thorough) of {a,A,ab,b,a*,[ab],a.b,.a,"a "}, each name stored from '
+        '/home/u/w, /home/u/w2, /mnt/v1/p (in .Trash-uid) and /mnt/v1/q (in .Trash/uid); non-trivial = at least one entry matched and at least one did not; distinct = (pattern shape, outcome)')
 TOKENS = ['a', 'A', 'b', '.', '*', '?', '[ab]', '[!a]', '[']
-FULL = ['/mnt/v?/p/a', '/mnt/[v]1/p/ab', '/mnt/v1/p/.a', '.a', '.?', '/home/u/w/a', '/home/*/a', '/*', '/mnt/v1/*', '/home/u/w/?', '/home/u/w2/[ab]', '/home/u/w/a?', '']
-NAMES = ['a', 'A', 'ab', 'b', 'a*', '[ab]', 'a.b', '.a']
-DIRS = [('/home/u/w', scen.HOME_TRASH, ''), ('/home/u/w2', scen.HOME_TRASH, '_1'), ('/mnt/v1/p', '/mnt/v1/.Trash-0', '')]
+FULL = ['a ', ' a', '/home/u/w/a ', '/mnt/v1/q/a', '/mnt/v?/p/a', '/mnt/[v]1/p/ab', '/mnt/v1/p/.a', '.a', '.?', '/home/u/w/a', '/home/*/a', '/*', '/mnt/v1/*', '/home/u/w/?', '/home/u/w2/[ab]', '/home/u/w/a?', '']
+NAMES = ['a', 'A', 'ab', 'b', 'a*', '[ab]', 'a.b', '.a', 'a ']
+DIRS = [('/home/u/w', scen.HOME_TRASH, ''), ('/home/u/w2', scen.HOME_TRASH, '_1'), ('/mnt/v1/p', '/mnt/v1/.Trash-0', ''),
+        ('/mnt/v1/q', '/mnt/v1/.Trash/0', '')]          # the other volume has BOTH kinds of trash directory in use
 
 
 def patterns():
@@ -43,7 +44,7 @@ def name_sets(tier):
 
 
 def dimensions(tier):
-    return {'patterns': len(patterns()), 'name_sets': len(name_sets(tier)), 'dirs_per_name': 3}
+    return {'patterns': len(patterns()), 'name_sets': len(name_sets(tier)), 'dirs_per_name': 4}
 
 
 def cases(tier):
@@ -56,6 +57,7 @@ def shape(p):
 
 def run_case(c):
     W = scen.base_world(mounts=['/', '/mnt/v1'], cwd='/')
+    W.dir('/mnt/v1/.Trash', mode=0o1777)
     ents = []
     for n in c['names']:
         for d, td, suf in DIRS:
